@@ -107,6 +107,19 @@ func mkfsOne(sz uint64, fill bool, useFree bool) (line string, oracle string) {
 	if joinRuns(iruns) != "0-2" {
 		return line, fmt.Sprintf("size %d: fresh inode bitmap marks %s, want exactly inodes 0 and 1", sz, joinRuns(iruns))
 	}
+	// every inode number the inode allocator can hand out has its slot inside the inode table: the allocator is built
+	// from the inode bitmap (fstxn.MkFsState: NInodeBitmap blocks of bits), and the fresh bitmap leaves everything but 0
+	// and 1 free
+	if nbits := s.NInodeBitmap * common.NBITBLOCK; uint64(s.NInode()) < nbits {
+		n := uint64(s.NInode())
+		a := s.Inum2Addr(common.Inum(n))
+		return line, fmt.Sprintf("size %d: the inode table has %d slots but the fresh inode bitmap leaves the numbers up to %d free: inode %d, which the allocator will hand out once %d files exist, has its slot at block %d — data region [%d,%d)", sz, n, nbits-1, n, n-2, a.Blkno, ds, sz)
+	}
+	for _, i := range []uint64{2, uint64(s.NInode()) / 2, uint64(s.NInode()) - 1} {
+		if a := s.Inum2Addr(common.Inum(i)); a.Blkno < is || a.Blkno >= ds {
+			return line, fmt.Sprintf("size %d: the slot of inode %d is at block %d, outside the inode table [%d,%d)", sz, i, a.Blkno, is, ds)
+		}
+	}
 	if !fill {
 		return
 	}
